@@ -36,7 +36,7 @@ class Cluster:
 
     def on_send(self, conn, data):
         host = str(conn.addr[0])
-        if host.startswith("cfg."):
+        if host.startswith("cfg.") or data.startswith(b"config get cluster"):      # (every node of a cluster answers the configuration command)
             if self.mode == "ok":
                 reply = render_reply(self.version, self.advertised)
             else:
@@ -274,6 +274,11 @@ def main(argv):
                         clock[0] += 2
                         for k in keys:
                             cl.set(k, b"i", noreply=False)
+                        all_names = {"%s:%s" % ((ip if use_vpc else h), p) for h, ip, p in nodes}
+                        if set(cl.hasher.nodes) != all_names or set(cl.clients) != all_names:
+                            ctx.violation("after a reconfiguration that advertises a node the failover had taken out, the rotation is not the advertised list",
+                                          dict(case, rotation=sorted(cl.hasher.nodes), clients=sorted(cl.clients), advertised=sorted(all_names)), tags=["failover-readvertised"])
+                            continue
                     C.advertised = [n for i, n in enumerate(nodes) if n != dead and i not in also_dropped]
                     C.version += 1
                     cl.reconfigure_nodes()
@@ -301,6 +306,30 @@ def main(argv):
                     ctx.violation("the failover + scale-down scenario raised", dict(case, error=repr(e)[:120]), tags=["failover-scale-down"])
     finally:
         H.time, A.time = real_time, real_time_a
+    # the configuration is asked of one of the cluster's own nodes (any node answers `config get cluster`): that node is advertised like the others
+    for use_vpc in (True, False):
+        for which in (0, 2):
+            for n_nodes in (1, 3, 4):
+                C = Cluster(rng)
+                nodes = pool_nodes[:n_nodes]
+                C.advertised = list(nodes)
+                C.world.tag = "cfg-is-a-node"
+                h_, ip_, p_ = nodes[min(which, n_nodes - 1)]
+                endpoint = "%s:%s" % ((ip_ if use_vpc else h_), p_)
+                case = {"use_vpc": use_vpc, "configuration_endpoint": endpoint, "advertised": ["%s|%s|%s" % n_ for n_ in nodes]}
+                ctx.case(("cfg-is-a-node", use_vpc, which, n_nodes))
+                ctx.count("configuration endpoint is one of the nodes")
+                try:
+                    cl = AWSElastiCacheHashClient(endpoint, socket_module=C.sm, use_vpc=use_vpc, default_noreply=False, retry_attempts=0, dead_timeout=0)
+                    names = {"%s:%s" % ((ip if use_vpc else h), p) for h, ip, p in nodes}
+                    after_ctor = (set(cl.hasher.nodes), set(cl.clients))
+                    C.version += 1
+                    cl.reconfigure_nodes()
+                    if after_ctor != (names, names) or set(cl.hasher.nodes) != names or set(cl.clients) != names:
+                        ctx.violation("the rotation is not the advertised node list when the configuration endpoint is one of the nodes",
+                                      dict(case, rotation=sorted(cl.hasher.nodes), clients=sorted(cl.clients), rotation_after_construction=sorted(after_ctor[0])), tags=["cfg-is-a-node"])
+                except Exception as e:
+                    ctx.violation("discovery through one of the cluster's nodes raised", dict(case, error=repr(e)[:120]), tags=["cfg-is-a-node"])
     # ERROR endpoint: must fail with a memcached error, not an internal Python error
     for mode in ("error", "error-eof"):
         for use_vpc in (True, False):
